@@ -237,11 +237,15 @@ pub fn enumerate(w: &mut World, op: &Value, bid: usize, modes: &[Mode], out: &mu
 			let wn = op["w"].as_str().unwrap_or("w1").to_string();
 			let q = probe_queries(w, &wn);
 			let rec = probe_cancel_all(w);
+			// C15: the next key handed out after the interruption must be a fresh one
+			let h = w.chain.head().map(|x| x.height).unwrap_or(0);
+			let nk = if w.wallets[&wn].inst.is_some() { w.build_coinbase(&wn, None, h + 1, 0) } else { json!({"retkey": "", "res": "closed"}) };
 			let ev = json!({
 				"ev": "crash", "b": bid, "k": k, "n": n, "mode": if *mode == Mode::Crash {"crash"} else {"fail"},
 				"point": hits[k - 1], "fired": fired, "crashed": crashed, "w": wn,
 				"op": op, "opres": e["res"], "opdetail": e["detail"], "reopen": e["reopen"], "res": "ok",
 				"queries": q, "recover": rec, "base_pre": base_pre, "base_post": base_post,
+				"next_key": nk["retkey"], "next_key_res": nk["res"],
 				"obs": obs, "obs2": w.obs(),
 			});
 			out.push(denull(ev).to_string());
